@@ -520,7 +520,11 @@ pub(crate) fn tokenize_file(ctx: &mut StaticsContext, file_id: FileId) -> Vec<To
                         Some(c) => (c, c + 1),
                         None => (n_off, n_off),
                     };
-                let s = process_escapes_into(lexer.slice(1, content_end), ctx, file_id);
+                // the content starts right after the opening quote
+                let s = process_escapes_into(lexer.slice(1, content_end), ctx, file_id, |p| Span {
+                    lo: open + 1 + p,
+                    hi: open + 1 + p + 1,
+                });
                 emit_string_token(&mut lexer, s, open, open + after_close);
             }
             '\'' => {
@@ -531,7 +535,11 @@ pub(crate) fn tokenize_file(ctx: &mut StaticsContext, file_id: FileId) -> Vec<To
                         Some(c) => (c, c + 1),
                         None => (n_off, n_off),
                     };
-                let s = process_escapes_into(lexer.slice(1, content_end), ctx, file_id);
+                // the content starts right after the opening quote
+                let s = process_escapes_into(lexer.slice(1, content_end), ctx, file_id, |p| Span {
+                    lo: open + 1 + p,
+                    hi: open + 1 + p + 1,
+                });
                 emit_string_token(&mut lexer, s, open, open + after_close);
             }
             '/' => {
@@ -591,8 +599,15 @@ pub(crate) fn tokenize_file(ctx: &mut StaticsContext, file_id: FileId) -> Vec<To
     byte_of_char.push(nbytes);
     let to_byte = |i: usize| byte_of_char.get(i).copied().unwrap_or(nbytes);
     for error in ctx.errors[first_lexer_error..].iter_mut() {
-        if let Error::UnrecognizedToken(_, index) = error {
-            *index = to_byte(*index);
+        match error {
+            Error::UnrecognizedToken(_, index) => *index = to_byte(*index),
+            Error::UnrecognizedEscapeSequence(_, span) => {
+                // the diagnostic covers lo..=hi
+                let end = to_byte(span.hi + 1);
+                span.lo = to_byte(span.lo);
+                span.hi = end.saturating_sub(1).max(span.lo);
+            }
+            _ => {}
         }
     }
     let mut tokens = lexer.into_tokens();
@@ -633,9 +648,14 @@ fn scan_for_unescaped_delim(
 }
 
 // Process escape sequences in offsets [start..end], appending decoded chars to `s`.
-fn process_escapes_into(chars: &[char], ctx: &mut StaticsContext, file_id: FileId) -> String {
+// `locate` maps the position of a bad escape inside `chars` to its span in the file.
+fn process_escapes_into(
+    chars: &[char],
+    ctx: &mut StaticsContext,
+    file_id: FileId,
+    locate: impl Fn(usize) -> Span,
+) -> String {
     let mut s = "".to_string();
-    let base = 0;
     let mut p = 0;
     let end = chars.len();
     while p < end
@@ -662,21 +682,12 @@ fn process_escapes_into(chars: &[char], ctx: &mut StaticsContext, file_id: FileI
                         p += 4;
                         continue;
                     }
-                    ctx.errors.push(Error::UnrecognizedEscapeSequence(
-                        file_id,
-                        Span {
-                            lo: base + p,
-                            hi: base + p + 1,
-                        },
-                    ));
+                    ctx.errors
+                        .push(Error::UnrecognizedEscapeSequence(file_id, locate(p)));
                 }
-                _ => ctx.errors.push(Error::UnrecognizedEscapeSequence(
-                    file_id,
-                    Span {
-                        lo: base + p,
-                        hi: base + p + 1,
-                    },
-                )),
+                _ => ctx
+                    .errors
+                    .push(Error::UnrecognizedEscapeSequence(file_id, locate(p))),
             }
             p += 2;
         } else {
@@ -823,8 +834,19 @@ fn handle_multiline_string(lexer: &mut Lexer, ctx: &mut StaticsContext, file_id:
         }
     }
 
-    let string_val = process_escapes_into(&string_val.chars().collect::<Vec<_>>(), ctx, file_id);
-    emit_string_token(lexer, string_val, lo, lexer.index + next);
+    // indentation was stripped, so positions in `string_val` are not positions in the file:
+    // point at the whole literal
+    let hi = lexer.index + next;
+    let string_val = process_escapes_into(
+        &string_val.chars().collect::<Vec<_>>(),
+        ctx,
+        file_id,
+        |_| Span {
+            lo,
+            hi: hi.saturating_sub(1),
+        },
+    );
+    emit_string_token(lexer, string_val, lo, hi);
 }
 
 fn emit_string_token(lexer: &mut Lexer, s: String, lo: usize, hi: usize) {
